@@ -289,6 +289,9 @@ func runC11(r *hk.Run) {
 				as = append(as, h)
 				hs = append(hs, h.render())
 			}
+			for nb := rng.Intn(8) - 5; nb > 0; nb-- { // 25 %: one or two blank entries, which name no host
+				hs = append(hs, []string{"", " "}[nb%2])
+			}
 			mode := rng.Intn(4)
 			if k == 4 {
 				coqPol, name = "(PAllowedHost "+hk.CoqStrList(hs)+")", "allowedhost"
@@ -309,7 +312,24 @@ func runC11(r *hk.Run) {
 			}
 			r.Count(fmt.Sprintf("policy.allowed.slice-mode=%d", mode))
 		}
-		got := pol(mkReq(t.render()), viaReqs) == nil
+		// a constructor that hands back nil installs NO policy (SetRedirectPolicy skips nil entries): the hop is permitted
+		got, panicked := true, ""
+		if pol == nil {
+			r.Fail(hk.Failure{Sig: "policy:" + name + ":nil-policy", What: "the constructor returned a nil RedirectPolicy: installed through SetRedirectPolicy it restricts nothing",
+				Input: map[string]interface{}{"policy": coqPol, "target": t.render(), "via": viaStr}, Got: "nil", Want: want})
+		} else {
+			func() {
+				defer func() {
+					if x := recover(); x != nil {
+						panicked = fmt.Sprint(x)
+					}
+				}()
+				got = pol(mkReq(t.render()), viaReqs) == nil
+			}()
+			if panicked != "" {
+				r.Fail(hk.Failure{Sig: "policy:" + name + ":panic", What: "the policy panicked", Input: map[string]interface{}{"policy": coqPol, "target": t.render(), "via": viaStr}, Got: panicked})
+			}
+		}
 		r.Count("policy=" + name)
 		r.Count(fmt.Sprintf("policy.allowed=%v", got))
 		if got != want {
